@@ -290,3 +290,76 @@ def borrowed(module, fname, src, dst, **kw):
         finally:
             ctx.rename = None
     return run
+
+
+def spec_rows(ctx, R, qname, rows):
+    """Finite-domain meaning of the abort checks of one function.  Each row binds some operands of
+    the function's tests to boundary values (`dom`: operand text -> values; locals may be bound by
+    name) and states when the function must abort (`abort(env)`).  The function's CFG is walked for
+    every assignment with all unrelated abort checks assumed to pass (condeval.outcomes): it must end
+    in an abort (raise / _sendError) exactly when the row says so.  Nothing is executed; equivalent
+    rewrites of the checks give the same verdicts."""
+    import itertools
+    from ..condeval import outcomes
+    fi = ctx.index.func(qname)
+    g = ctx.an.cfg(fi)
+    cache = {}
+
+    def ao(t):
+        if t.id not in cache:
+            cache[t.id] = dead_edge_labels(g, t, [g.exit])
+        return cache[t.id]
+    for row in rows:
+        dom = row["dom"]
+        keys = sorted(dom)
+        bad = None
+        n = 0
+        memo = {}
+        for combo in itertools.product(*[dom[k] for k in keys]):
+            env = dict(zip(keys, combo))
+            if row.get("when") and not row["when"](env):
+                continue
+            n += 1
+            env["__index__"] = ctx.index
+            watch = row.get("effects")
+            reached = set()
+            out, both = outcomes(g, fi.node, env, ao, memo, watch=set(watch) if watch else None, reached=reached)
+            del env["__index__"]
+            exp = bool(row["abort"](env))
+            ends = {x for x, t in out}
+            # must abort: no path at all may complete; must continue: no abort on a path decided by the row
+            ok = ("pass" not in ends and "raise" in ends) if exp else (("raise", False) not in out)
+            if not ok:
+                bad = (env, out, exp, both)
+                break
+            if watch and not exp:
+                # statements named by the row run (on the path the row decides) exactly when it says so
+                for txt, pred in watch.items():
+                    want = bool(pred(env))
+                    got = (txt, False) in reached or (txt, True) in reached    # may-reach
+                    if want != got:
+                        bad_effect = (env, txt, want)
+                        break
+                else:
+                    continue
+                shown = ", ".join("%s=%r" % (k, v) for k, v in sorted(env.items()))
+                ctx.fail(R, fi.qname, row["what"] + " (effect)", "%s: for %s the statement `%s` %s" % (
+                    row.get("msg") or row["what"], shown, bad_effect[1],
+                    "must run but does not" if bad_effect[2] else "runs but must not"), fi.loc())
+                bad = "effect"
+                break
+        what = row["what"]
+        if bad == "effect":
+            continue
+        if bad:
+            env, out, exp, both = bad
+            shown = ", ".join("%s=%r" % (k, v) for k, v in sorted(env.items()))
+            ends = {x for x, t in out}
+            if exp and ends == {"raise", "pass"} and both:
+                why = "for %s it aborts on some paths only (undecided: `%s`)" % (shown, norm(both[0].expr)[:70])
+            else:
+                why = "for %s it %s but must %s" % (shown, "aborts" if ("raise", False) in out else "continues",
+                                                    "abort" if exp else "continue")
+            ctx.fail(R, fi.qname, what, "%s: %s" % (row.get("msg") or what, why), fi.loc())
+        else:
+            ctx.ok(R, "%s: %s" % (fi.short, what), fi.loc(), sample={"operands": keys, "assignments": n})
